@@ -121,7 +121,13 @@ while len(se_meta) < want_se and tries < 20 * want_se:
     d_tube = snellexact.tube_distance(geom["src"], geom["phi"], geom["walls"], geom["vels"], geom["last_len"])
     if d_tube is None or not (d_tube > 0):
         continue
-    path = snellexact.arim_path(geom, arim, int_source=intsrc_)
+    # some walls are finely sampled (flat frames except at the crossing sample, which has the true local normal); the crossing
+    # sample is designated by its index k or, equivalently, by k - numpoints (counted from the end of the wall)
+    crowd_ = 41 if (tries % 7 == 3 and not intsrc_ and geom["nlegs"] >= 2) else None
+    from_end_ = crowd_ is not None and tries % 14 == 3
+    path = snellexact.arim_path(geom, arim, int_source=intsrc_, crowd=crowd_, from_end=from_end_)
+    if crowd_ is not None:
+        chk.count(snell_exact_finely_sampled_wall="sample counted from the end" if from_end_ else "sample counted from the start")
     if normal_:
         chk.count(snell_exact_normal_incidence="integer-typed source" if intsrc_ else "float source")
     if intvel:
